@@ -270,6 +270,10 @@ class Runner:
         if op["op"] == "create":
             op.setdefault("n", False)
             op.setdefault("dr", False)
+        if op["op"] == "verifydh":
+            op.setdefault("co", False)
+            op.setdefault("ro", False)
+            op["h"] = op.get("h") or ""
         if op["op"] == "infosf" and op.get("R") is None:
             op["R"] = ["-"]
         command, args, cwd = self.build(op)
@@ -317,6 +321,8 @@ class Runner:
             line["flat"] = self.flat_projection(post_snap)
         if k in ("info", "infosf", "hash"):
             line["stdout"] = res["out"]
+        if k == "verifydh" and op.get("co"):
+            line["co"] = self.judge_co(res["out"], op, pre_snap, eff)
         if k == "info":
             line["info"] = self.parse_info(res["out"], op)
         if k == "infosf":
@@ -345,7 +351,7 @@ class Runner:
                 g["pats"] = [abstract_pattern(w, p) for p in g.get("pats", [])]
                 info = self.geninfo.get(os.path.join(folder, g["name"])) if folder else None
                 g["croot"], g["ceff"] = info if info else (h["h"], [])
-                for k, dflt in (("files", []), ("dirs", []), ("refs", []), ("snap", []), ("proc", ""), ("cdate", ""), ("xsd_ok", False), ("root", {"has": False, "fmts": [], "cok": [], "sok": []})):
+                for k, dflt in (("files", []), ("dirs", []), ("refs", []), ("snap", []), ("proc", ""), ("cdate", ""), ("xsd_ok", False), ("root", {"has": False, "fmts": [], "cok": [], "sok": [], "hs": []})):
                     g.setdefault(k, dflt)
                 gens.append(g)
             h["gens"] = gens
@@ -365,6 +371,55 @@ class Runner:
                 if rnd.random() < 0.5:
                     t = W.PIN_MTIME + rnd.randint(1, 10**6)
                     os.utime(os.path.join(dp, n), (t, t))
+
+    def judge_co(self, out, op, snap, eff):
+        """verify -dh -co prints the calculated hashes; compare each with the reference evaluator"""
+        from . import oracle
+
+        w = self.w
+        Rabs = w.cpath(tuple(op["R"]))
+        spec = self.pj.spec(eff)
+
+        def tree_of(dir_abs):
+            t = {}
+            for p, meta in snap.items():
+                if os.path.dirname(p) != dir_abs:
+                    continue
+                rel = os.path.relpath(p, Rabs).replace(os.sep, "/")
+                if spec.match_file(rel):
+                    continue
+                t[os.path.basename(p)] = tree_of(p) if meta[0] == "d" else p
+            return t
+
+        def fd(fmt):
+            def f(path):
+                with open(path, "rb") as fh:
+                    return oracle.digest(fmt, fh.read())
+            return f
+
+        printed, good, bad = 0, 0, []
+        for ln in out.splitlines():
+            m1 = re.match(r"^  calculated root hash  (\S+): (\S+) \(content\), (\S+) \(structure\)$", ln)
+            m2 = re.match(r"^  calculated directory hash for (.*)  (\S+): (\S+) \(content\), (\S+) \(structure\)$", ln)
+            if m1:
+                rel, fmt, c, s_ = ".", m1.group(1), m1.group(2), m1.group(3)
+            elif m2:
+                rel, fmt, c, s_ = m2.group(1), m2.group(2), m2.group(3), m2.group(4)
+            else:
+                continue
+            printed += 1
+            d_abs = Rabs if rel == "." else os.path.join(Rabs, rel)
+            try:
+                rc, rs = oracle.dir_hashes(tree_of(d_abs), fmt, fd(fmt))
+            except Exception:
+                rc, rs = None, None
+            if (rc, rs) == (c, s_):
+                good += 1
+            else:
+                bad.append(rel)
+        ndirs = 1 + sum(1 for p, meta in snap.items() if meta[0] == "d" and p.startswith(Rabs + os.sep) and "ascmhl" not in p.split(os.sep)
+                        and not spec.match_file(os.path.relpath(p, Rabs).replace(os.sep, "/")))
+        return {"printed": printed, "good": good, "bad": bad, "ndirs": ndirs}
 
     def parse_info(self, out, op):
         """info ROOT -> [{h: abstract root of the listed history, ns: [...], dates: [...]}]"""
